@@ -1401,8 +1401,10 @@ def labelled(cx):
         cutoff, max_bond = ((0.0, None), (0.3, None), (0.0, 2))[oi]
         if method not in ("svd", "svd:eig", "auto"):
             cutoff, max_bond = 0.0, None
+        # the operator has rank <= the bond dimension: exactly rank-deficient whenever the bond is the smallest dimension
+        tn_kind = "rankdef" if dx < min(xm.shape) else "gauss"
         params = dict(entry="TensorNetwork.split", method=method, path="api", absorb=absorb, form=form, dtype=dtype,
-                      dims=[da, db, dc, dd_, dx], split=split_i, cutoff=cutoff, max_bond=max_bond, kind="gauss", i=i)
+                      dims=[da, db, dc, dd_, dx], split=split_i, cutoff=cutoff, max_bond=max_bond, kind=tn_kind, i=i)
         must = form in MUST_ACCEPT[method]
         single = sum(PRESENT[form]) == 1
 
